@@ -26,8 +26,8 @@ def run(rep, W, ctx):
     # "latest is nil" must mean "no versions yet": the one place outside the operation that writes the latest pointer (client
     # creation in the add-version handler) leaves it nil, only for an absent client
     S.s_newclient(rep, W)
-    H.c15_refuse(rep, W)               # .. nor does the handler turn a valid request away for a reason the protocol does not know
-    S.s_failmodes(rep, W)              # "accepted exactly when": no further way for a valid request to fail
+    H.c15_refuse(rep, W, modules=("add_version",))               # .. nor does the handler turn a valid request away for a reason the protocol does not know
+    S.s_failmodes(rep, W, ops=("add_version",), methods=("get_client", "add_version", "new_client", "commit"))              # "accepted exactly when": no further way for a valid request to fail
     S.s_mematomic(rep, W)              # in memory, a failed append must not have moved the latest pointer
     # "the response carries a new version id ... / names the current latest": the AddVersion handler's outcome table
     H.c14_tables(rep, W, modules=("add_version",))
